@@ -133,7 +133,11 @@ func runBatch(obs []*Oblig, timeoutS int, all bool) {
 			defer wg.Done()
 			sem <- struct{}{}
 			defer func() { <-sem }()
-			best, allr := RunScript(j.obs[0].Name, j.sc, timeoutS, all)
+			to := timeoutS
+			if j.obs[0].TimeMul > 1 {
+				to *= j.obs[0].TimeMul
+			}
+			best, allr := RunScript(j.obs[0].Name, j.sc, to, all)
 			if best.Result != "unsat" && !j.obs[0].NoSlice && !j.obs[0].Soft {
 				// the cone-of-influence slice may have dropped the facts that make this path infeasible:
 				// retry once with every hypothesis of the path
